@@ -1218,6 +1218,24 @@ def wl_arith(rng, rec, tier):
                     a.add_MPO(b, compress=True, cutoff=0.0))]
     for _ in range(2):
         gen.attempt(gen.choice(rng, ops))
+    # multiplication by an exact zero: the zero vector / operator, not NaN
+    z = gen.choice(rng, [0.0, np.float64(0.0), 0])
+    rz = gen.attempt2(lambda: a * z) if rng.random() < 0.5 else gen.attempt2(a.multiply, z)
+    if rz is not gen.REJECTED and rz is not None:
+        from ..core import dense_of
+        rec.busy = True
+        try:
+            dz = dense_of(rz, max_size=1 << 16)
+        except Exception:
+            dz = None
+        finally:
+            rec.busy = False
+        if dz is not None:
+            arr = np.asarray(dz[0])
+            rec.check("arith", "times_zero", bool(np.all(np.isfinite(arr)) and not np.any(arr)),
+                      mech="arith:times_zero:not_the_zero_element",
+                      detail={"kind": kind, "nan": bool(np.isnan(arr).any()), "max": float(np.nanmax(np.abs(arr))) if arr.size else 0.0},
+                      sig=("times_zero", kind, type(z).__name__))
     # queries handled by expec_TN_1D
     if kind == "mps":
         gen.attempt(lambda: a.H @ b)
@@ -1306,7 +1324,7 @@ def wl_fill(rng, rec, tier):
     n2 = int(rng.integers(1, min(L, 4) + 1))
     sub = sorted(int(i) for i in rng.choice(L, size=n2, replace=False))
     D = int(rng.integers(1, 4))
-    what = gen.choice(rng, ["mps_arrays", "mpo_rand", "mpo_fill"])
+    what = gen.choice(rng, ["mps_arrays", "mpo_rand", "mpo_fill", "mpo_identity"])
     if what == "mps_arrays":
         arrs = []
         for i in range(n2):
@@ -1316,6 +1334,9 @@ def wl_fill(rng, rec, tier):
         want_outer = None if obj is gen.REJECTED else {obj.site_ind(i) for i in sub}
     elif what == "mpo_rand":
         obj = gen.attempt2(qtn.MPO_rand, L, D, phys_dim=d, sites=sub, dtype=dt, seed=int(rng.integers(1 << 30)))
+        want_outer = None if obj is gen.REJECTED else {obj.upper_ind(i) for i in sub} | {obj.lower_ind(i) for i in sub}
+    elif what == "mpo_identity":
+        obj = gen.attempt2(qtn.MPO_identity, L, sites=sub, phys_dim=d) if n2 >= 2 else gen.REJECTED
         want_outer = None if obj is gen.REJECTED else {obj.upper_ind(i) for i in sub} | {obj.lower_ind(i) for i in sub}
     else:
         obj = gen.attempt2(qtn.MatrixProductOperator.from_fill_fn, lambda shape: np.ones(shape), L, D, phys_dim=d, sites=sub)
